@@ -1,6 +1,43 @@
-(* Corr/FastaCorr.v — correspondence entry points. *)
+(* Corr/FastaCorr.v — correspondence entry points for package formats/fasta:
+   decode a case value, run the model, encode the observable exactly as
+   harness/fasta.go encodes the implementation's.
+
+   fasta_write  : [name seq]                 -> [[call ...] marshal]  marshal = [i0 bytes] | [i2]
+   fasta_decode : [bytes term chunk]         -> [item ...]            item = [i0 [name seq]] | [i1]
+   fasta_layout : [[[name seq] ...] bytes]   -> [item ...]  (Reader on the bytes, EOF-terminated;
+                                                 the record list is for the harness oracle only)
+   [chunk] (how the harness slices the stream into Read calls) is not observable. *)
 From Coq Require Import String.
 From Bio Require Import Base.
 From Bio.Model Require Import Fasta.
 
-Definition corr_fasta : list (string * (val -> val)) := [].
+Definition v_fasta (r : fasta) : val := VL [VB (name r); VB (seq r)].
+
+Definition c_fasta_write (v : val) : val :=
+  match v with
+  | VL [VB n; VB s] =>
+    let r := {| name := n; seq := s |} in
+    VL [VL (map VB (write_calls r)); v_outcome VB (marshal_text r)]
+  | _ => v_bad
+  end.
+
+Definition c_fasta_decode (v : val) : val :=
+  match v with
+  | VL [VB inp; t; VI _] =>
+    match as_term t with
+    | Some t' => v_items v_fasta (decode inp t')
+    | None => v_bad
+    end
+  | _ => v_bad
+  end.
+
+Definition c_fasta_layout (v : val) : val :=
+  match v with
+  | VL [VL _; VB inp] => v_items v_fasta (decode inp TEOF)
+  | _ => v_bad
+  end.
+
+Definition corr_fasta : list (string * (val -> val)) :=
+  [ ("fasta_write"%string, c_fasta_write);
+    ("fasta_decode"%string, c_fasta_decode);
+    ("fasta_layout"%string, c_fasta_layout) ].
